@@ -84,6 +84,18 @@ fn hash_report<const P: u128>(rng: &mut Rng, n: usize, prog: &Program, order2: &
             p1[i].cached_semantic_hash(b1.order(), &map).value()
         })
         .collect();
+    // cached and recomputed hash of the SMOOTHED diagram (same function, nodes with equal
+    // children) and of the diagram obtained by conditioning (shares nodes with its argument)
+    let csm: Vec<u128> = picks
+        .iter()
+        .map(|&i| {
+            let sm = b1.smooth(p1[i], n);
+            let _ = sm.cached_semantic_hash(b1.order(), &map);
+            sm.cached_semantic_hash(b1.order(), &map).value()
+        })
+        .collect();
+    let hsm: Vec<u128> = picks.iter().map(|&i| b1.smooth(p1[i], n).semantic_hash(&map).value()).collect();
+    let csmneg: Vec<u128> = picks.iter().map(|&i| b1.smooth(p1[i], n).neg().cached_semantic_hash(b1.order(), &map).value()).collect();
     let cs: Vec<u128> = picks
         .iter()
         .map(|&i| {
@@ -96,9 +108,9 @@ fn hash_report<const P: u128>(rng: &mut Rng, n: usize, prog: &Program, order2: &
     let sem_h: Vec<u128> = picks.iter().map(|&i| sem.cached_semantic_hash(qs[i]).value()).collect();
     let _ = sdd_canon(q1[0], false);
     format!(
-        "P={} vt1={} vt2={} w={} picks={} hb1={} hb2={} hs1={} hs2={} hneg={} hsneg={} cb={} cs={} semtt={} semeq={} semh={}",
+        "P={} vt1={} vt2={} w={} picks={} hb1={} hb2={} hs1={} hs2={} hneg={} hsneg={} cb={} cs={} csm={} hsm={} csmneg={} semtt={} semeq={} semh={}",
         P, vt1.print(), vt2.print(), ws.join(","), csv(&picks),
-        f(hb1), f(hb2), f(hs1), f(hs2), f(hneg), f(hsneg), f(cb), f(cs),
+        f(hb1), f(hb2), f(hs1), f(hs2), f(hneg), f(hsneg), f(cb), f(cs), f(csm), f(hsm), f(csmneg),
         sem_tt.join("|"), csv(&sem_eq), f(sem_h)
     )
 }
